@@ -143,7 +143,7 @@ func VerifLemma_C11A_ImagePathFilter() {
 	for i := range paths {
 		paths[i] = vgNondetPathValue(n)
 	}
-	nx := verifParam("NX") // bound for the exclude prefixes; 0 = same as N
+	nx := verifParam("NX") // bound for the exclude prefixes (0 = same as N)
 	if nx == 0 {
 		nx = n
 	}
